@@ -131,20 +131,49 @@ def rand_uf(rng, dom, maxlen):
     return ops
 
 
-def gen_cases(tier, seed):
-    rng = lib.rng_for(seed, PROP)
+def chunk_plan(tier):
+    """the work of one check as a list of chunk descriptors (suite, source, first index, count)"""
+    quick = tier == "quick"
+    plan = []
+    n_tr = len(TR_OPS3) ** (3 if quick else 5)
+    n_uf = len(UF_OPS3) ** (3 if quick else 4)
+    nrand = 2000 if quick else 40000
+    for suite, n, size in (("truf", n_tr, 250 if quick else 3000), ("uf", n_uf, 1300 if quick else 8000)):
+        for lo in range(0, n, size):
+            plan.append((suite, "exhaustive", lo, min(size, n - lo)))
+    for suite in ("truf", "uf"):
+        for lo in range(0, nrand, 250):
+            plan.append((suite, "random", lo, min(250, nrand - lo)))
+    return plan
+
+
+def nth_product(alphabet, length, idx):
+    """the idx-th element of itertools.product(alphabet, repeat=length)"""
+    out = []
+    for _ in range(length):
+        idx, r = divmod(idx, len(alphabet))
+        out.append(alphabet[r])
+    return out[::-1]
+
+
+def chunk_cases(tier, seed, chunk):
+    suite, src, lo, n = chunk
     quick = tier == "quick"
     cases = []
-    for h in itertools.product(TR_OPS3, repeat=3 if quick else 5):
-        cases.append(dict(suite="truf", dom=3, ops=[list(o) for o in h], src="exhaustive"))
-    for h in itertools.product(UF_OPS3, repeat=3 if quick else 4):
-        cases.append(dict(suite="uf", dom=3, ops=[list(o) for o in h], src="exhaustive"))
-    nrand = 2000 if quick else 40000
-    for _ in range(nrand):
-        cases.append(dict(suite="truf", dom=8, ops=[list(o) for o in rand_truf(rng, 8, 60)], src="random"))
-    for _ in range(nrand):
-        cases.append(dict(suite="uf", dom=8, ops=[list(o) for o in rand_uf(rng, 8, 60)], src="random"))
+    if src == "exhaustive":
+        alphabet, length = (TR_OPS3, 3 if quick else 5) if suite == "truf" else (UF_OPS3, 3 if quick else 4)
+        for i in range(lo, lo + n):
+            cases.append(dict(suite=suite, dom=3, ops=[list(o) for o in nth_product(alphabet, length, i)], src=src))
+    else:
+        rng = lib.rng_for(seed, PROP, "%s/%d" % (suite, lo))
+        for _ in range(n):
+            ops = rand_truf(rng, 8, 60) if suite == "truf" else rand_uf(rng, 8, 60)
+            cases.append(dict(suite=suite, dom=8, ops=[list(o) for o in ops], src=src))
     return cases
+
+
+def gen_cases(tier, seed):
+    return [c for ch in chunk_plan(tier) for c in chunk_cases(tier, seed, ch)]
 
 
 # ------------------------------------------------------------------ parsing the harness output
@@ -378,12 +407,28 @@ def spec_uf(c, steps):
 
 # ------------------------------------------------------------------ running
 
+SINGLE = [False]     # inside a worker process: no nested sharding
+
+
+def ds_run1(binary, suite, lines):
+    import subprocess
+    p = subprocess.run([binary, suite], input="\n".join(lines) + "\n", stdout=subprocess.PIPE, stderr=subprocess.PIPE,
+                       text=True, timeout=900)
+    outl = p.stdout.splitlines()
+    if len(outl) != len(lines):
+        raise lib.Infra("ds_uf %s: %d cases, %d results (rc=%s) stderr=%s" % (suite, len(lines), len(outl), p.returncode, p.stderr[-500:]))
+    return outl
+
+
 def run_impl(binary, cases):
     """parsed per-step observations of the implementation for every case"""
     res = [None] * len(cases)
     for suite in ("truf", "uf"):
         idx = [i for i, c in enumerate(cases) if c["suite"] == suite]
-        lines = lib.ds_run(binary, suite, [case_line(cases[i]) for i in idx])
+        if not idx:
+            continue
+        runner = ds_run1 if SINGLE[0] else lib.ds_run
+        lines = runner(binary, suite, [case_line(cases[i]) for i in idx])
         parse = parse_truf_step if suite == "truf" else parse_uf_step
         for i, l in zip(idx, lines):
             res[i] = [parse(s) for s in l.split(" # ")] if l.strip() else []
@@ -402,7 +447,8 @@ def run_model(cases, mode="hist", tag="C18"):
             chunk = idx[j:j + bs]
             exprs.append(coq_batch(suite, dom, [cases[i] for i in chunk], mode))
             owners.append(chunk)
-    vals = lib.coq_eval(tag, PRELUDE, exprs, per_shard=max(1, (len(exprs) + lib.NCPU - 1) // lib.NCPU), timeout=1500)
+    per = len(exprs) if SINGLE[0] else max(1, (len(exprs) + lib.NCPU - 1) // lib.NCPU)
+    vals = lib.coq_eval(tag, PRELUDE, exprs, per_shard=max(1, per), timeout=1500)
     res = [None] * len(cases)
     for chunk, v in zip(owners, vals):
         assert len(v) == len(chunk), (len(v), len(chunk))
@@ -463,12 +509,14 @@ def locate_diff(c, isteps, msteps):
     return None
 
 
-def compare_case(c, isteps, m):
+def compare_case(c, isteps, m, locate=True):
     """(spec mismatch or None, model mismatch or None) for one case; m = the model's 'hist' result"""
     spec = (spec_truf if c["suite"] == "truf" else spec_uf)(c, isteps)
     diff = None
     if not quick_agree(c, isteps, m):
-        diff = locate_diff(c, isteps, run_model([c], mode="steps", tag="C18l")[0]) or (0, "history fingerprints differ")
+        diff = (len(c["ops"]) - 1, "history fingerprints differ")
+        if locate:
+            diff = locate_diff(c, isteps, run_model([c], mode="steps", tag="C18l")[0]) or diff
     return spec, diff
 
 
@@ -491,44 +539,32 @@ def shrink(binary, c, still_fails):
     return dict(c, ops=ops)
 
 
-def tie(tier, seed, replay):
-    binary, out = lib.harness_build("ds_uf")
-    if binary is None:
-        raise lib.Infra("ds_uf does not build against /repo:\n" + out[-3000:])
-    if replay:
-        cases = [json.load(open(replay))["case"]]
-    else:
-        cp = os.path.join(lib.VERIF, "corpus", "C18.jsonl")
-        corpus = [json.loads(l) for l in open(cp) if l.strip()] if os.path.exists(cp) else []
-        for c in corpus:
-            c["src"] = "corpus"
-        cases = corpus + gen_cases(tier, seed)
+def examine(binary, cases, tag):
+    """run the cases three ways; returns (stats dict, mismatch list)"""
     impl = run_impl(binary, cases)
-    model = run_model(cases)
+    model = run_model(cases, tag=tag)
     mism = []
-    evaluations = 0
-    nontrivial = {"truf": set(), "uf": set()}
-    dist = {}
+    st = dict(evaluations=0, nontrivial=set(), dist={}, samples=[])
     for c, isteps, m in zip(cases, impl, model):
-        evaluations += len(isteps)
+        st["evaluations"] += len(isteps)
         key = "%s/%s/dom%d" % (c["suite"], c.get("src", "replay"), c["dom"])
-        d = dist.setdefault(key, dict(histories=0, operations=0, max_len=0))
+        d = st["dist"].setdefault(key, dict(histories=0, operations=0, max_len=0))
         d["histories"] += 1
         d["operations"] += len(c["ops"])
         d["max_len"] = max(d["max_len"], len(c["ops"]))
         last = isteps[-1] if isteps else {}
-        if c["suite"] == "truf" and last.get("subs"):
-            nontrivial["truf"].add(case_line(c))
-        if c["suite"] == "uf" and any(p != j for j, p in enumerate(last.get("parent", []))):
-            nontrivial["uf"].add(case_line(c))
-        spec, diff = compare_case(c, isteps, m)
+        if (c["suite"] == "truf" and last.get("subs")) or \
+           (c["suite"] == "uf" and any(p != j for j, p in enumerate(last.get("parent", [])))):
+            st["nontrivial"].add(hash((c["suite"], case_line(c))))
+        ndiff = len([x for x in mism if x["kind"] == "model_differs"])
+        spec, diff = compare_case(c, isteps, m, locate=ndiff < 3)
         if spec is not None:
             i, what, want = spec
 
             def still(cand):
-                st = run_impl(binary, [cand])[0]
-                return (spec_truf if cand["suite"] == "truf" else spec_uf)(cand, st) is not None
-            small = shrink(binary, dict(c, ops=c["ops"][:i + 1]), still) if len(mism) < 5 else c
+                s2 = run_impl(binary, [cand])[0]
+                return (spec_truf if cand["suite"] == "truf" else spec_uf)(cand, s2) is not None
+            small = shrink(binary, dict(c, ops=c["ops"][:i + 1]), still) if len(mism) < 3 else dict(c, ops=c["ops"][:i + 1])
             sst = run_impl(binary, [small])[0]
             sspec = (spec_truf if small["suite"] == "truf" else spec_uf)(small, sst)
             mism.append(dict(case=small, impl=sst[sspec[0]] if sspec else None, model=None, spec=sspec[2] if sspec else want,
@@ -537,35 +573,84 @@ def tie(tier, seed, replay):
         elif diff is not None:
             i, what = diff
             cut = dict(c, ops=c["ops"][:i + 1])
-            if len([x for x in mism if x["kind"] == "model_differs"]) < 3:
+            if len([x for x in mism if x["kind"] == "model_differs"]) < 2:
                 def still_m(cand):
-                    st = run_impl(binary, [cand])[0]
-                    mm = run_model([cand], tag="C18s")[0]
-                    return compare_case(cand, st, mm)[1] is not None
+                    s2 = run_impl(binary, [cand])[0]
+                    mm = run_model([cand], tag=tag + "s")[0]
+                    return not quick_agree(cand, s2, mm)
                 cut = shrink(binary, cut, still_m)
-            st = run_impl(binary, [cut])[0]
-            mfull = run_model([cut], mode="full", tag="C18f")[0]
+            if ndiff >= 3:
+                mism.append(dict(case=cut, impl=None, model=None, spec=None, kind="model_differs", known=None,
+                                 what="correspondence model vs code: %s on history %s" % (what, case_line(cut))))
+                continue
+            s2 = run_impl(binary, [cut])[0]
+            mfull = run_model([cut], mode="full", tag=tag + "f")[0]
             enc = enc_truf if cut["suite"] == "truf" else enc_uf
-            mism.append(dict(case=cut, impl=[("panic" if "panic" in o else enc(cut["dom"], o)) for o in st],
+            mism.append(dict(case=cut, impl=[("panic" if "panic" in o else enc(cut["dom"], o)) for o in s2],
                              model=model_view(mfull, True), spec="implementation meets the specification oracle on this history",
                              kind="model_differs", known=None,
                              what="correspondence %s vs %s: %s on history %s" % (
                                  "UF/TrUfModel.v" if cut["suite"] == "truf" else "UF/UfModel.v",
                                  "trrel_union_find.rs" if cut["suite"] == "truf" else "uf.rs", what, case_line(cut))))
-    samples = []
-    for c, isteps in list(zip(cases, impl))[:2] + list(zip(cases, impl))[-2:]:
+    for c, isteps in list(zip(cases, impl))[:1]:
         last = isteps[-1] if isteps else {}
-        samples.append(dict(case=dict(suite=c["suite"], dom=c["dom"], ops=c["ops"]),
-                            impl_last_step={k: last.get(k) for k in ("contains", "count", "asserts", "sets", "subs", "conn", "parent", "rank", "next", "ok") if k in last}))
+        st["samples"].append(dict(case=dict(suite=c["suite"], dom=c["dom"], ops=c["ops"]),
+                                  impl_last_step={k: last.get(k) for k in ("contains", "count", "asserts", "sets", "subs", "conn", "parent", "rank", "next", "ok") if k in last}))
+    return st, mism
+
+
+def _work(args):
+    binary, tier, seed, k, chunk = args
+    SINGLE[0] = True
+    cases = chunk_cases(tier, seed, chunk)
+    st, mism = examine(binary, cases, "C18_%d" % k)
+    return st, mism[:5], len(mism)
+
+
+def tie(tier, seed, replay):
+    binary, out = lib.harness_build("ds_uf")
+    if binary is None:
+        raise lib.Infra("ds_uf does not build against /repo:\n" + out[-3000:])
+    tot = dict(evaluations=0, nontrivial=set(), dist={}, samples=[])
+    mism, nmism = [], 0
+
+    def merge(st, mm, n):
+        nonlocal nmism
+        tot["evaluations"] += st["evaluations"]
+        tot["nontrivial"] |= st["nontrivial"]
+        for k, d in st["dist"].items():
+            t = tot["dist"].setdefault(k, dict(histories=0, operations=0, max_len=0))
+            t["histories"] += d["histories"]
+            t["operations"] += d["operations"]
+            t["max_len"] = max(t["max_len"], d["max_len"])
+        if len(tot["samples"]) < 8:
+            tot["samples"] += st["samples"]
+        mism.extend(mm)
+        nmism += n
+    if replay:
+        merge(*(lambda r: (r[0], r[1], len(r[1])))(examine(binary, [json.load(open(replay))["case"]], "C18r")))
+    else:
+        cp = os.path.join(lib.VERIF, "corpus", "C18.jsonl")
+        corpus = [json.loads(l) for l in open(cp) if l.strip()] if os.path.exists(cp) else []
+        for c in corpus:
+            c["src"] = "corpus"
+        if corpus:
+            st, mm = examine(binary, corpus, "C18c")
+            merge(st, mm, len(mm))
+        plan = chunk_plan(tier)
+        import concurrent.futures as cf
+        with cf.ProcessPoolExecutor(lib.NCPU) as ex:
+            for st, mm, n in ex.map(_work, [(binary, tier, seed, k, ch) for k, ch in enumerate(plan)]):
+                merge(st, mm, n)
     return dict(
-        evaluations=evaluations, distinct_nontrivial=len(nontrivial["truf"]) + len(nontrivial["uf"]),
-        rule="an evaluation = one operation of one history with all observables compared three ways; non-trivial history = "
-             "TrRelUnionFind history whose final state has at least one subsumed (collapsed) class, or UnionFind history whose final "
-             "forest has at least one non-root; distinct = distinct operation sequences (truf %d, uf %d)" % (len(nontrivial["truf"]), len(nontrivial["uf"])),
-        samples=samples, distribution=dist, mismatches=mism,
+        evaluations=tot["evaluations"], distinct_nontrivial=len(tot["nontrivial"]),
+        rule="an evaluation = one operation of one history with all observables compared three ways (implementation, Coq model, python "
+             "closure / component oracle); non-trivial history = TrRelUnionFind history whose final state has at least one subsumed "
+             "(collapsed) class, or UnionFind history whose final forest has at least one non-root; distinct = distinct operation sequences",
+        samples=tot["samples"], distribution=dict(tot["dist"], total_mismatching_histories=nmism), mismatches=mism,
         trusted_base=["harness/ds_uf (Rust): drives the library's UnionFind / TrRelUnionFind; UnionFind::ok() is private, it is reached by compiling uf.rs's source text a second time inside the harness (include!) and running that copy in lockstep (state dumps compared)",
                       "internal state is observed through the derived Debug impls (numbers extracted in order); gen/props/c18.py parsers, encoders and the python closure / component oracles",
-                      "per-step comparison model vs implementation through a 63-bit polynomial fingerprint of the complete flat observation"],
+                      "per-history comparison model vs implementation through a 63-bit polynomial fingerprint of all per-operation observations (per-operation and full observations are fetched on a mismatch)"],
         assumptions=["element type u32 in the harness, nat in the models (only Eq/Hash of T is used by the code)",
                      "hashbrown / std HashMap, HashSet, Vec meet their set / map / sequence semantics; HashSet iteration order is not modelled (every loop over a set in the modelled code performs commuting updates)",
                      "UfPtr::MAX / usize overflow checks (len < usize::MAX) are not modelled",
